@@ -53,7 +53,7 @@ var boName = [...]string{"get", "put", "props", "fill", "set(array)", "set(typed
 	"new DataView", "DataView.get", "DataView.set", "ArrayBuffer.slice", "ArrayBuffer.byteLength", "host-detach", "host-write"}
 
 // weights of the op kinds (index = kind)
-var boWeight = [...]int{5, 6, 2, 7, 6, 7, 7, 5, 5, 4, 2, 3, 2, 2, 7, 2, 1, 2, 5, 3, 1, 2, 3, 2, 2, 5, 6, 2, 1, 1, 2}
+var boWeight = [...]int{5, 6, 2, 7, 6, 7, 7, 8, 5, 4, 2, 3, 2, 2, 7, 2, 1, 2, 5, 3, 1, 2, 3, 2, 2, 5, 6, 2, 1, 1, 2}
 
 const (
 	itMap = iota
@@ -157,6 +157,39 @@ type bmodel struct {
 	bufs  []*mbuf
 	views []*mview
 	cnt   map[string]int64
+	alias *aliasSpec // what the species constructor hands out in this step instead of a fresh array (nil: fresh)
+}
+
+// aliasSpec describes the array a faulted species constructor returned: a view over an existing buffer (buf != nil)
+// or a fresh array of a different length (buf == nil).
+type aliasSpec struct {
+	buf    *mbuf
+	off, n int
+}
+
+type bufSnap struct {
+	data     []byte
+	detached bool
+	nan      []brange
+}
+
+func (m *bmodel) snapshot() []bufSnap {
+	out := make([]bufSnap, len(m.bufs))
+	for i, b := range m.bufs {
+		out[i] = bufSnap{data: append([]byte(nil), b.data...), detached: b.detached, nan: append([]brange(nil), b.nanCells...)}
+	}
+	return out
+}
+
+func (m *bmodel) restore(s []bufSnap) {
+	for i, b := range m.bufs {
+		if i < len(s) {
+			b.data = append(b.data[:0], s[i].data...)
+			b.detached = s[i].detached
+			b.nanCells = append(b.nanCells[:0], s[i].nan...)
+		}
+		b.dirty = b.dirty[:0]
+	}
 }
 
 func (m *bmodel) count(k string) {
